@@ -228,6 +228,7 @@ class Facts:
         r = self._fn_index.get(q, [])
         if file_suffix:
             r = [f for f in r if f["file"].endswith(file_suffix)]
+        TOUCHED.update((f["q"], f["file"], f["l"], f.get("l_end")) for f in r)
         return r
 
     def fn1(self, q, **kw):
@@ -352,6 +353,8 @@ class Check:
 
     def instance(self, rid, key, nontrivial=True, sample=None):
         r = self.rules[rid]
+        if isinstance(sample, dict) and isinstance(sample.get("function"), str):
+            TOUCHED_Q.add(sample["function"])
         r["instances"] += 1
         if nontrivial and key not in r["keys"]:
             r["keys"].add(key)
@@ -421,6 +424,9 @@ class Check:
         os.makedirs(rdir, exist_ok=True)
         for old in glob.glob(os.path.join(rdir, "*.json")):
             os.remove(old)
+        if os.environ.get("VERIF_ANCHORS"):
+            with open(os.environ["VERIF_ANCHORS"], "w") as fh:
+                json.dump(dict(touched=sorted(TOUCHED, key=str), instance_functions=sorted(TOUCHED_Q)), fh)
         print("== %s (%s): %d units, %d rules, %d instances, %.1fs" % (self.pid, self.tier, len(self.units), len(self.rules), evaluations, wall))
         for rid, r in sorted(self.rules.items()):
             print("   %-16s %5d instances (floor %d)  %s" % (rid, r["instances"], r["floor"], r["desc"][:90]))
@@ -440,6 +446,10 @@ class Check:
             print("  %s:%s: [%s] %s" % (v.get("file"), v.get("line"), v["rule"], v["message"]))
             print("VIOLATION property=%s replay=%s" % (self.pid, path))
         return 1 if self.violations else 0
+
+
+TOUCHED = set()      # (q, file, l, l_end) of every function a rule asked for by name (tool/neutral.py uses it)
+TOUCHED_Q = set()    # qualified names of functions that carry rule instances
 
 
 def load_table(name):
